@@ -48,6 +48,8 @@ SIG = {
                                [('hrp', 'List Char'), ('data', 'List Int'), ('spec', 'Int')], 'List Int'),
     'convertbits': ('bech32.py', 'convertbits',
                     [('data', 'List Int'), ('frombits', 'Int'), ('tobits', 'Int'), ('pad', 'Bool')], 'Option (List Int)'),
+    # script assembly: a token is an opcode name / a hex string (modelled by the bytes it denotes) / an int
+    'script_to_bytes': ('script.py', 'Script.to_bytes', [('OPS', 'List (String × Bytes)'), ('self_script', 'List Py.PyTok')], 'Bytes'),
     # the rest of the bundled RIPEMD-160
     'rmd_compress': ('ripemd160.py', 'compress',
                      [('h0', 'Int'), ('h1', 'Int'), ('h2', 'Int'), ('h3', 'Int'), ('h4', 'Int'), ('block', 'Bytes')],
@@ -85,7 +87,7 @@ WHILE_FUEL = {'convertbits': '(Int.toNat bits + 1)'}
 # return types of translated callees that are lists (for `+` -> `++`)
 LIST_RET = {'bech32_hrp_expand', 'bech32_create_checksum'}
 POINT_RET = {'point_add': 'schnorr_point_add', 'point_mul': 'schnorr_point_mul', 'lift_x': 'schnorr_lift_x'}
-CALLS = {'rol': 'rmd_rol', 'fi': 'rmd_fi',
+CALLS = {'rol': 'rmd_rol', 'fi': 'rmd_fi', '_push_integer': 'push_integer',
          'encode_varint': 'encode_varint', 'prepend_compact_size': 'prepend_compact_size',
          '_op_push_data': 'op_push_data', 'parse_compact_size': 'parse_compact_size',
          'bech32_polymod': 'bech32_polymod', 'bech32_hrp_expand': 'bech32_hrp_expand'}
@@ -106,12 +108,14 @@ def find(tree, qual):
 
 
 def blit(b):
+    if not b: return '([] : Bytes)'
     return '[' + ', '.join(f'0x{x:02x}' for x in b) + ']'
 
 
 class Tr:
     def __init__(s, name, file=None):
         s.name = name; s.tmp = 0; s.pre = []; s.declared = set(); s.points = set(); s.tuple5 = set()
+        s.toklists = set(); s.tokvars = set(); s.optables = set()
         s.fconsts = FILE_CONSTS.get(file, {})
 
     def fail(s, n, why):
@@ -128,6 +132,8 @@ class Tr:
             if n.value is None: return 'none'
             if isinstance(n.value, str) and 'p' in s.fconsts: return blit(n.value.encode())     # a str that only flows into .encode()
             s.fail(n, 'constant')
+        if isinstance(n, ast.Name) and n.id in s.tokvars: return f'(Py.tokInt {n.id})'      # a token used as a number (under isinstance(token, int))
+        if isinstance(n, ast.Name) and n.id == 'OP_CODES' and 'OPS' in s.optables: return 'OPS'
         if isinstance(n, ast.Name):
             if n.id in s.fconsts and n.id not in s.declared: return s.fconsts[n.id]
             if n.id in CONSTS and n.id not in s.declared: return CONSTS[n.id]
@@ -181,6 +187,9 @@ class Tr:
             a, b, c = s.e(n.left), s.e(n.comparators[0]), s.e(n.comparators[1])
             sym = {ast.Lt: '<', ast.LtE: '≤'}
             return f'((decide ({a} {sym[type(n.ops[0])]} {b})) && (decide ({b} {sym[type(n.ops[1])]} {c})))'
+        if (isinstance(n, ast.Compare) and len(n.ops) == 1 and isinstance(n.ops[0], ast.In) and isinstance(n.left, ast.Name)
+                and n.left.id in s.tokvars and isinstance(n.comparators[0], ast.Name) and n.comparators[0].id == 'OP_CODES'):
+            return f'(Py.tokInTable OPS {n.left.id})'
         if isinstance(n, ast.Compare) and len(n.ops) == 1:
             a, b = s.e(n.left), s.e(n.comparators[0])
             op = {ast.Lt: '<', ast.LtE: '≤', ast.Gt: '>', ast.GtE: '≥', ast.Eq: '==', ast.NotEq: '!='}.get(type(n.ops[0]))
@@ -209,6 +218,13 @@ class Tr:
                                 else f'(if {acc} then pure true else {rhs})')
             return acc if acc.startswith('(') or acc.startswith('t') else f'({acc})'
         if isinstance(n, ast.UnaryOp) and isinstance(n.op, ast.Not): return f'(!{s.cond(n.operand)})'
+        if isinstance(n, ast.Subscript) and isinstance(n.value, ast.Name) and n.value.id == 'OP_CODES' and 'OPS' in s.optables:
+            k = n.slice
+            if isinstance(k, ast.Name) and k.id in s.tokvars: return s.eff(f'Py.tokLookup OPS {k.id}')
+            if (isinstance(k, ast.BinOp) and isinstance(k.op, ast.Add) and isinstance(k.left, ast.Constant) and isinstance(k.left.value, str)
+                    and isinstance(k.right, ast.Call) and getattr(k.right.func, 'id', '') == 'str' and len(k.right.args) == 1):
+                return s.eff(f'Py.lookupS OPS ({lean_str(k.left.value)} ++ Py.strInt {s.e(k.right.args[0])})')
+            s.fail(n, 'OP_CODES key')
         if isinstance(n, ast.Subscript):
             v = s.e(n.value)
             if isinstance(n.slice, ast.Slice):
@@ -235,6 +251,8 @@ class Tr:
         """the iterable of a for loop / comprehension as a Lean list"""
         if isinstance(n, ast.Call) and isinstance(n.func, ast.Name) and n.func.id == 'range' and len(n.args) == 1:
             return f'(Py.range {s.e(n.args[0])})'
+        if isinstance(n, ast.Attribute) and isinstance(n.value, ast.Name) and n.value.id == 'self' and 'self_' + n.attr in s.toklists:
+            return 'self_' + n.attr
         if isinstance(n, ast.Name) and (n.id in s.intlists or n.id in s.bytesvars or n.id in s.charlists):
             if n.id in s.bytesvars: s.fail(n, 'iteration over bytes')
             return n.id
@@ -292,6 +310,7 @@ class Tr:
             return t
         if isinstance(n, ast.Constant) and isinstance(n.value, bool): return t
         if isinstance(n, ast.Call) and isinstance(n.func, ast.Name) and n.func.id in ('isinstance', 'is_infinite', 'has_even_y', 'schnorr_verify'): return t
+        if t.startswith('(Py.tokInTable'): return t
         if isinstance(n, ast.Name) and n.id in s.boolvars: return t
         if isinstance(n, ast.Attribute) and 'self_' + n.attr in s.boolvars: return t
         if s.isbytes(n): return f'(!({t}).isEmpty)'
@@ -331,6 +350,9 @@ class Tr:
                 comps = f'{t}.1 {t}.2.1 {t}.2.2.1 {t}.2.2.2.1 {t}.2.2.2.2'
                 return s.eff(f'rmd_compress {comps} {s.e(args[1])}')
             if f.id in CALLS: return s.eff(f'{CALLS[f.id]} ' + ' '.join(s.e(a) for a in args))
+            if f.id == 'isinstance' and len(args) == 2 and isinstance(args[0], ast.Name) and args[0].id in s.tokvars \
+                    and isinstance(args[1], ast.Name) and args[1].id == 'int':
+                return f'(Py.tokIsInt {args[0].id})'
             if f.id == 'isinstance': return 'true'     # argument types are fixed by the signature table
         if isinstance(f, ast.Attribute):
             if (f.attr == 'digest' and not args and isinstance(f.value, ast.Call) and isinstance(f.value.func, ast.Attribute)
@@ -353,6 +375,10 @@ class Tr:
                     import copy
                     parts.append(s.e(Sub().visit(copy.deepcopy(args[0].elt))))
                 return '(' + ' ++ '.join(parts) + ')'
+            if (isinstance(f.value, ast.Name) and f.value.id == 'self' and f.attr == '_op_push_data' and len(args) == 1
+                    and isinstance(args[0], ast.Name) and args[0].id in s.tokvars):
+                d = s.eff(f'Py.tokData {args[0].id}')        # h_to_b(token): raises for a string that is not hex
+                return s.eff(f'op_push_data {d}')
             if isinstance(f.value, ast.Name) and f.value.id == 'self' and f.attr in CALLS:
                 return s.eff(f'{CALLS[f.attr]} ' + ' '.join(s.e(a) for a in args))
             if f.attr == 'to_bytes':
@@ -446,6 +472,7 @@ class Tr:
                 if used: head.append(f'{ind}  let {v} : Int := Int.ofNat {v}_')
                 return pre + head + s.block(st.body, ind + '  ')
             it = s.iter(st.iter); pre = s.flush(ind)
+            if it in s.toklists: s.tokvars.add(v)
             return pre + [f'{ind}for {v} in {it} do'] + s.block(st.body, ind + '  ')
         if isinstance(st, ast.While) and not st.orelse:
             if s.name not in WHILE_FUEL: s.fail(st, 'while loop without a registered iteration bound')
@@ -500,6 +527,8 @@ class Tr:
         s.intlists = {p for p, t in params if t == 'List Int'}; s.charlists = {p for p, t in params if t == 'List Char'}
         s.declared = {p for p, _ in params}; s.selfalias = set()
         s.points = {p for p, t in params if t == 'Point'}
+        s.toklists = {p for p, t in params if t == 'List Py.PyTok'}; s.tokvars = set()
+        s.optables = {p for p, t in params if t == 'List (String × Bytes)'}
         params = [(p, POINT if t == 'Point' else t) for p, t in params]
         if ret == 'Point': ret = POINT
         s.ret = ret
